@@ -21,7 +21,7 @@ HERE = os.path.dirname(os.path.dirname(os.path.abspath(__file__)))
 PY = build_mod.PY
 
 STALL_S = float(os.environ.get("VERIF_STALL_S", "120"))       # no heartbeat for this long -> suspected hang
-RERUN_S = float(os.environ.get("VERIF_RERUN_S", "600"))       # the suspected case alone gets this long
+RERUN_S = float(os.environ.get("VERIF_RERUN_S", "240"))       # the suspected case alone gets this long
 
 # (builds x shards) per tier
 PLAN = {"quick": 2, "thorough": 8}
